@@ -389,6 +389,14 @@ func checkC11(c *Ctx, rt *rapid.T) {
 		b = w.Add(b)
 		es = append(es, TreeEntry{Mode: 0o100644, Name: "big", OID: b.ID})
 	}
+	if g.Chance(1, 4, "saturate") {
+		// a saturated metric must be shown whatever the threshold is
+		sz := []uint64{1<<32 - 1, 1 << 32, 1 << 40}[g.Pick(3, "satsize")]
+		b := NewObject(KBlob, []byte("saturating blob\n"))
+		b.DeclaredSize = &sz
+		b = w.Add(b)
+		es = append(es, TreeEntry{Mode: 0o100644, Name: "sat", OID: b.ID})
+	}
 	if g.Chance(1, 2, "steerentries") {
 		n := g.PickInt([]int{999, 1000, 1001, 2000, 500}, "nentries")
 		for i := 0; i < n; i++ {
@@ -425,7 +433,7 @@ func checkC11(c *Ctx, rt *rapid.T) {
 		}
 	}
 	p := c11Params{Names: g.PickStr([]string{"full", "hash", "none"}, "names")}
-	pool := []string{"v", "-v", "", "n", "c", "0", "1", "30", "0.5", "1.5", "7.25", "-1", "1e308", "2", "10", "29.999", "30.001", "0.001", "31", "1e-300"}
+	pool := []string{"v", "-v", "", "n", "c", "0", "1", "30", "0.5", "1.5", "7.25", "-1", "1e308", "2", "10", "29.999", "30.001", "0.001", "31", "1e-300", "430", "500", "1e6", "1e12"}
 	n := g.Int(3, 6, "nthresholds")
 	for i := 0; i < n; i++ {
 		if g.Chance(1, 4, "kthr") {
